@@ -1944,6 +1944,55 @@ def pole_sites(tu, fns):
     return out
 
 
+def arc_sites(tu, fns):
+    """[(function, node, verdict, text)] for each acos / asin in the functions: 'bad' when the argument is an input of the function (a
+    parameter or a component of one) that no branch condition, min / max / clamp restricts: rounding puts a unit quantity a few ulp
+    outside [-1, 1] (NaN), and next to +-1 the derivative of acos is unbounded (the angle loses half its digits)"""
+    out = []
+    for f in fns:
+        fd = tu.nodes.get(f['id'])
+        params = {x['id'] for x in (tu.kids(fd) if fd is not None else []) if x.get('kind') == 'ParmVarDecl'}
+        body = tu.body(f)
+        for n in tu.walk(body):
+            if n.get('kind') != 'CallExpr' or _callee_name(tu, n) not in ('acos', 'asin', 'acosf', 'asinf'):
+                continue
+            args = tu.kids(n)[1:]
+            if not args:
+                continue
+            a = tu.strip(args[0], casts=True)
+            roots = set()
+            clamped = False
+            for y in tu.walk(a):
+                if y.get('kind') == 'CallExpr' and _callee_name(tu, y) in ('min', 'max', 'clamp'):
+                    clamped = True
+                if y.get('kind') == 'DeclRefExpr':
+                    d = tu.nodes.get(y.get('referencedDecl', {}).get('id'))
+                    # follow single-assignment locals one step
+                    if d is not None and d.get('kind') == 'VarDecl' and tu.kids(d):
+                        for z in tu.walk(tu.kids(d)[-1]):
+                            if z.get('kind') == 'CallExpr' and _callee_name(tu, z) in ('min', 'max', 'clamp'):
+                                clamped = True
+                            if z.get('kind') == 'DeclRefExpr':
+                                roots.add(z.get('referencedDecl', {}).get('id'))
+                    roots.add(y.get('referencedDecl', {}).get('id'))
+            guarded = False
+            locals_ = {y.get('referencedDecl', {}).get('id') for y in tu.walk(a) if y.get('kind') == 'DeclRefExpr'}
+            for x in tu.walk(body):
+                if x.get('kind') in ('IfStmt', 'ConditionalOperator', 'WhileStmt') and tu.kids(x):
+                    if any(y.get('kind') == 'DeclRefExpr' and y.get('referencedDecl', {}).get('id') in (roots | locals_)
+                           for y in tu.walk(tu.kids(x)[0])):
+                        guarded = True
+            if clamped or guarded:
+                out.append((f, n, 'ok', '`%s`: the argument is clamped or restricted by a branch condition' % tu.show(n)[:50]))
+            elif roots & params and len(roots) <= 2:
+                out.append((f, n, 'bad', '`%s` takes the arc function of an input component that nothing restricts to [-1, 1]: for a unit quantity '
+                            'rounding gives values like 1 + 1 ulp (acos is NaN), and next to +-1 - the identity rotation, small angles - the '
+                            'angle comes out with an error of sqrt(eps); a zero axis extracted alongside is then normalised to NaN' % tu.show(n)[:50]))
+            else:
+                out.append((f, n, 'skip', '`%s`: argument not traced to an input' % tu.show(n)[:50]))
+    return out
+
+
 def transl_sites(tu, fns):
     """[(function, node, verdict, text)] for xfmVector / xfmNormal taking an affine space: 'bad' where the translation member `p` of that
     argument is read, or the whole argument is handed to a function of the headers that reads it"""
@@ -2063,7 +2112,9 @@ def align_sites(tu, fns):
 
 
 def check_structure(ctx, tu):
-    RP, RT, RA = 'R-C06-pole', 'R-C06-transl', 'R-C06-align'
+    RP, RT, RA, RC = 'R-C06-pole', 'R-C06-transl', 'R-C06-align', 'R-C06-arc'
+    ctx.describe(RC, 'acos / asin in the transform headers is only applied to a value that a branch condition or a clamp keeps inside '
+                     '[-1, 1] and away from the singular end points (a rotation is not re-derived from an unclamped quaternion component)')
     ctx.describe(RP, 'no division in the transform headers by an expression of sin/cos values whose range contains 0: rotate is defined for '
                      'every angle of the domain, half turns included')
     ctx.describe(RT, 'xfmVector / xfmNormal of an affine space never read its translation (directly or through xfmPoint): the result is the '
@@ -2074,7 +2125,8 @@ def check_structure(ctx, tu):
     for R, sites, what, keyf in (
             (RP, pole_sites(tu, pure), 'division by sin/cos expressions', 'pole-in-angle-domain'),
             (RT, transl_sites(tu, pure), 'xfmVector / xfmNormal overloads taking an affine space', 'reads-translation'),
-            (RA, align_sites(tu, list(_hdr_fns(tu, prefix=MATH_HEADERS_PREFIX))), 'aligned load/store intrinsics', 'aligned-access-to-unaligned-type')):
+            (RA, align_sites(tu, list(_hdr_fns(tu, prefix=MATH_HEADERS_PREFIX))), 'aligned load/store intrinsics', 'aligned-access-to-unaligned-type'),
+            (RC, arc_sites(tu, pure), 'acos / asin calls', 'arc-function-of-unclamped-input')):
         nb = 0
         for f, n, v, why in sites:
             fn = f['q'].replace('rkcommon::math::', '')
@@ -2093,10 +2145,10 @@ def check_structure(ctx, tu):
     # self-check on the driver's own examples
     own = [f for f in tu.functions.values() if f['q'].startswith('rkverif_c06::') and tu.body(f) is not None]
     got = {}
-    for f, n, v, why in pole_sites(tu, own) + transl_sites(tu, own) + align_sites(tu, own):
+    for f, n, v, why in pole_sites(tu, own) + transl_sites(tu, own) + align_sites(tu, own) + arc_sites(tu, own):
         got.setdefault(f['q'].split('::')[-1], set()).add(v)
     want = {'versine_pole': {'bad'}, 'versine_ok': {'ok'}, 'xfmVector': {'bad'}, 'xfmNormal': {'ok'}, 'load_padded': {'bad'},
-            'load_aligned_local': {'ok'}}
+            'load_aligned_local': {'ok'}, 'angle_unclamped': {'bad'}, 'angle_guarded': {'ok'}}
     got = {k: v for k, v in got.items() if k in want}
     if got != want:
         ctx.broken('R-C06-pole/transl/align self-check: verdicts on %s are %s, expected %s' % (SHAPE_DRIVER, got, want))
